@@ -105,6 +105,7 @@ pub fn heavy_writers_cfg() -> GenCfg {
         extended_universe: true,
         max_reads: 2,
         max_writes: 14,
+        rt_skew: 6,
         p_dep: 1,
         p_barrier: 0,
         p_batch: 0,
@@ -121,6 +122,7 @@ pub fn many_resources_cfg() -> GenCfg {
         max_ops: 40,
         universe_max: 95,
         extended_universe: true,
+        rt_skew: 6,
         max_reads: 3,
         max_writes: 3,
         p_dep: 1,
@@ -129,6 +131,22 @@ pub fn many_resources_cfg() -> GenCfg {
         p_tl: 0,
         p_static: 0,
         batch_decl: false,
+        ..GenCfg::default()
+    }
+}
+
+/// up to 150 registrations per builder: system ids beyond 64 and 128
+pub fn long_cfg() -> GenCfg {
+    GenCfg {
+        max_ops: 150,
+        universe_max: 24,
+        max_reads: 2,
+        max_writes: 1,
+        p_dep: 6,
+        max_deps: 3,
+        p_batch: 0,
+        p_static: 0,
+        rt_skew: 4,
         ..GenCfg::default()
     }
 }
@@ -293,6 +311,7 @@ pub fn subs_for(id: &str) -> Vec<Sub> {
                         max_reads: 6,
                         max_writes: 1,
                         write_chance: 4,
+                        rt_skew: 8,
                         p_dep: 0,
                         p_barrier: 0,
                         p_batch: 0,
@@ -403,6 +422,21 @@ pub fn subs_for(id: &str) -> Vec<Sub> {
             sub(
                 lp(
                     "C01",
+                    "c01-layout-long",
+                    "long class: up to 150 registrations per builder (system ids beyond 64 and 128)",
+                    GenCfg {
+                        universe_max: 10,
+                        ..long_cfg()
+                    },
+                    2500,
+                    p_layout::o_c01,
+                ),
+                6_000,
+                150_000,
+            ),
+            sub(
+                lp(
+                    "C01",
                     "c01-layout-heavy-writers",
                     "heavy-writer class: up to 14 writes per system (write lists past the inline capacity of 10, kept in declared order) over up to 40 of 96 resources",
                     heavy_writers_cfg(),
@@ -435,6 +469,7 @@ pub fn subs_for(id: &str) -> Vec<Sub> {
                         max_reads: 6,
                         max_writes: 1,
                         write_chance: 4,
+                        rt_skew: 8,
                         p_dep: 0,
                         p_barrier: 0,
                         p_batch: 0,
@@ -490,6 +525,17 @@ pub fn subs_for(id: &str) -> Vec<Sub> {
             ),
         ],
         "C02" => vec![sub(
+            lp(
+                "C02",
+                "c02-layout-long",
+                "long class: up to 150 registrations per builder (system ids beyond 64 and 128) with dependencies on early and late systems over mostly unrelated resources",
+                long_cfg(),
+                2500,
+                p_layout::o_c02,
+            ),
+            6_000,
+            150_000,
+        ), sub(
             lp(
                 "C02",
                 "c02-layout-wide",
@@ -998,6 +1044,7 @@ pub fn sched_subs_for(id: &str) -> Vec<Sub> {
                             max_reads: 6,
                             max_writes: 1,
                             write_chance: 4,
+                        rt_skew: 8,
                             p_dep: 0,
                             p_barrier: 0,
                             p_batch: 0,
@@ -1229,14 +1276,14 @@ pub fn sched_subs_for(id: &str) -> Vec<Sub> {
             sp(
                 "C07",
                 "c07-sched",
-                "plans with batches (nesting <= 2 under schedule control, thread-local systems inside batches with their own access) x schedule x pool x {dispatch, dispatch_par, dispatch_seq}; oracle B: no escaping panic, windows of an outer system and of a batch (or anything inside it) that conflict are disjoint, inner systems are isolated / ordered among themselves and run exactly once per inner dispatch; non-trivial = an outer system conflicting with a batch only through an inner system or only through controller data",
+                "plans with batches (nesting <= 2 under schedule control, thread-local systems inside batches with their own access) x schedule x pool x {dispatch, dispatch_par, dispatch_seq}; oracle B: no escaping panic, windows of an outer system and of a batch (or anything inside it) that conflict are disjoint, inner systems are isolated / ordered among themselves and run exactly once per inner dispatch, and every inner dispatch (its thread-local systems included) is complete before the controller's next one starts anything; non-trivial = an outer system conflicting with a batch only through an inner system or only through controller data",
                 GenCfg {
                     p_batch: 4,
                     tl_in_batch: true,
                     p_tl: 1,
                     ..sched_cfg()
                 },
-                vec![Want::Isolation, Want::Deps, Want::Barriers, Want::Counts],
+                vec![Want::Isolation, Want::Deps, Want::Barriers, Want::Counts, Want::InnerSequence],
                 vec![Dispatch, Par, SeqTl],
                 vec![0, 1, 1, 2],
                 p_sched::nt_batch,
